@@ -14,6 +14,7 @@ from ..core import CaseResult, bind_repo
 
 PROP = "C15"
 LEVEL = "model_checking"
+SECOND_SCHEDULE = 0  # stride of the reverse-order history pass (0 = off, 1 = every case)
 RULE = ("237 settings x every position of the rational grid {0,1/8,1/6,1/4,1/3,3/8,1/2,5/8,2/3,3/4,5/6,7/8}^3 (1728; the quick tier uses the 8-value sub-grid {0,1/8,1/6,1/4,1/3,1/2,2/3,3/4}^3) plus the "
         "(x,x,z), (x,2x,z), (x,-x,z) families with generic x, passed as floats; lattice-shifted copies; lookups by number and by "
         "every dictionary name. Oracle: exact orbit size with Fractions. distinct_nontrivial = distinct (setting, orbit size) "
@@ -35,7 +36,7 @@ def positions(tier):
         fam.append((x, F(3141, 10000), F(5926, 10000)))  # general position
     pos += [(p, (0, 0, 0)) for p in fam]
     shifts = [(-1, 0, 2), (2, -1, 0)] if tier == "quick" else [s for s in itertools.product((-1, 0, 2), repeat=3) if s != (0, 0, 0)]
-    base = list(itertools.product(SUB, repeat=3)) + fam if tier == "quick" else [p for p, _ in pos]
+    base = list(itertools.product(SUB, repeat=3)) + fam  # lattice-shifted copies: the 4-value sub-grid and the families (2 shifts quick, 26 thorough)
     for s in shifts:
         pos += [(p, s) for p in base]
     return pos
@@ -53,7 +54,76 @@ def cases(tier, seed):
         for lo in range(0, npos, B):
             cs.append({"kind": "number", "no": no, "cc": cc, "tier": tier, "lo": lo, "hi": min(npos, lo + B)})
     cs += [{"kind": "name", "name": name, "tier": tier} for name in sg.sgdic]
+    cs += [{"kind": "history", "no": no, "tier": tier} for no in alph.RHOMB]
+    cs.append({"kind": "argkinds", "tier": tier})
     return cs
+
+
+def check_history(case, r):
+    """covering walk (every ordered pair of lookups consecutively) over the ways of naming one R group in its two settings,
+    all in one process: a memo keyed on too little shows as a wrong multiplicity on the call after the colliding one"""
+    from xfab import sg, structure
+    from ..core import covering_walk
+
+    no = case["no"]
+    names = O.setting_names(sg.sgdic)
+    hexname = [n for n in names[(no, "standard")] if not n.endswith("h")][0]
+    ctx = [("sgno,standard", dict(sgno=no), "standard"), ("sgno,rhombohedral", dict(sgno=no, cell_choice="rhombohedral"), "rhombohedral"),
+           ("name " + hexname, dict(sgname=hexname), "standard"), ("name " + names[(no, "rhombohedral")][0], dict(sgname=names[(no, "rhombohedral")][0]), "rhombohedral"),
+           ("name+cell_choice", dict(sgname=hexname, cell_choice="rhombohedral"), "rhombohedral"), ("sgno 2", dict(sgno=2), None)]
+    opsets = {cc: O.exact_ops(sg.sg(sgno=no, cell_choice=cc)) for cc in ("standard", "rhombohedral")}
+    opsets[None] = O.exact_ops(sg.sg(sgno=2))
+    pts = [(F(1, 8), F(1, 4), F(3, 8)), (F(0), F(0), F(0)), (F(1, 3), F(2, 3), F(1, 6)), (F(1234, 10000), F(1234, 10000), F(1234, 10000))]
+    walk = covering_walk(len(ctx))
+    prev = None
+    for step, ci in enumerate(walk):
+        label, kw, cc = ctx[ci]
+        p = pts[step % len(pts)]
+        ref = len(O.orbit(opsets[cc], p))
+        try:
+            got = structure.multiplicity(np.array([float(x) for x in p]), **kw)
+        except Exception as ex:
+            got = repr(ex)
+        r.evals += 1
+        r.transitions += 1
+        if got != ref:
+            r.violation("history:Sg%d:step%d:%s after %s:pos=%s" % (no, step, label, prev, ",".join(map(str, p))),
+                        "multiplicity does not depend on the calls made before", ref, got)
+        r.nontrivial.add("hist:%d:%s>%s" % (no, prev, label))
+        prev = label
+    r.states = len(ctx)
+
+
+def check_argkinds(case, r):
+    """the same position given as list of Python ints, tuple, int array, float32 array, list of floats, Fortran/0-strided views"""
+    from xfab import sg, structure
+
+    groups = [("p21/c", None), ("c2", None), ("pnma", None), ("p-1", None), ("p3", None), ("fd-3m", None)]
+    pts = [(0, 0, 0), (1, 0, -1), (0, 1, 0)]
+    for name, _ in groups:
+        g = sg.sg(sgname=name)
+        ops = O.exact_ops(g)
+        for p in pts:
+            ref = len(O.orbit(ops, tuple(F(x) for x in p)))
+            kinds = [("list-int", list(p)), ("tuple-int", tuple(p)), ("int64", np.array(p, dtype=np.int64)), ("int32", np.array(p, dtype=np.int32)),
+                     ("float32", np.array(p, dtype=np.float32)), ("list-float", [float(x) for x in p]), ("float64", np.array(p, float))]
+            for kn, arg in kinds:
+                try:
+                    got = structure.multiplicity(arg, name)
+                except Exception as ex:
+                    got = repr(ex)
+                r.evals += 1
+                if got != ref:
+                    r.violation("argkind:%s:%s:%s" % (name, p, kn), "multiplicity is the same for a %s position" % kn, ref, got)
+                r.nontrivial.add("argkind:%s:%s" % (name, kn))
+        # half-integer positions as float32 (exactly representable)
+        for p in ((0.5, 0.25, 0.0), (0.125, 0.5, 0.75)):
+            ref = len(O.orbit(ops, tuple(F(x).limit_denominator(8) for x in p)))
+            got = structure.multiplicity(np.array(p, dtype=np.float32), name)
+            r.evals += 1
+            if got != ref:
+                r.violation("argkind:%s:%s:float32" % (name, p), "multiplicity is the same for a float32 position", ref, got)
+    r.states = 1
 
 
 def check_case(case):
@@ -61,6 +131,12 @@ def check_case(case):
 
     r = CaseResult()
     tier = case["tier"]
+    if case["kind"] == "history":
+        check_history(case, r)
+        return r
+    if case["kind"] == "argkinds":
+        check_argkinds(case, r)
+        return r
     if case["kind"] == "number":
         no, cc = case["no"], case["cc"]
         g = sg.sg(sgno=no, cell_choice=cc)
@@ -101,5 +177,5 @@ def alphabet(tier):
 
 def samples(cases):
     p = positions(cases[0]["tier"])
-    return [cases[0], cases[len(cases) // 2], cases[-1], {"position": [str(x) for x in p[300][0]], "shift": p[300][1]},
+    return [cases[0], cases[len(cases) // 2], cases[-3], {"position": [str(x) for x in p[300][0]], "shift": p[300][1]},
             {"position": [str(x) for x in p[-1][0]], "shift": p[-1][1]}]
